@@ -2,7 +2,7 @@
    arbitrary arithmetic instance (so they hold verbatim for binary64). *)
 From Coq Require Import ZArith QArith List Bool Sorted.
 From V Require Import Base.Num Model.StreamCore Model.Zliobaite Model.StreamCounters
-  Model.Biqf Proofs.StreamGeneric Proofs.StreamGenericX Proofs.ZlProofs Proofs.CounterProofs Proofs.BiqfProofs Model.StreamStrategy Proofs.StreamStrategyProofs.
+  Model.Biqf Proofs.StreamGeneric Proofs.StreamGenericX Proofs.ZlProofs Proofs.CounterProofs Proofs.BiqfProofs Model.StreamStrategy Proofs.StreamStrategyProofs Model.Cognitive Proofs.CognitiveProofs.
 Import ListNotations.
 Close Scope Q_scope.
 
@@ -140,6 +140,48 @@ Proof. intros. apply C10_strategy_chunking_invariance. Qed.
 Print Assumptions C10_density_strategy_chunking_invariance.
 
 (* non-vacuity: two chunkings of a 4-instance stream under the variable-uncertainty manager *)
+(* ---- the cognitive dual query strategies, as written (Model/Cognitive.v) ---- *)
+Theorem C10_cognitive_indices_wellformed :
+  forall (d : nat -> nat -> Z) (strength : nat -> nat -> Z) (cws thr : nat) (M : Type) (mdec : M -> nat -> bool)
+         (s : cog * M) (cs : list nat),
+  StronglySorted lt (fst (cog_query d strength cws thr mdec s cs)) /\
+  (forall j, In j (fst (cog_query d strength cws thr mdec s cs)) -> j < length cs).
+Proof. intros. apply cog_query_indices_wellformed. Qed.
+Print Assumptions C10_cognitive_indices_wellformed.
+
+(* force_full_budget=True: update accepts every result of query (the manager checks the indices
+   against the list it is handed, as the window-based managers do) *)
+Theorem C10_cognitive_full_budget_update_accepts :
+  forall (d : nat -> nat -> Z) (strength : nat -> nat -> Z) (cws thr : nat) (mdec : nat -> nat -> bool)
+         (w : cog) (m : nat) (cs : list nat), winv cws w ->
+  cog_update d strength cws thr idx_manager_upd true (w, m) cs (fst (cog_query d strength cws thr mdec (w, m) cs)) <> None.
+Proof. intros. apply cog_ffb_update_accepts. assumption. Qed.
+Print Assumptions C10_cognitive_full_budget_update_accepts.
+
+(* one instance per query / update: accepted whatever force_full_budget *)
+Theorem C10_cognitive_single_instance_accepts :
+  forall (d : nat -> nat -> Z) (strength : nat -> nat -> Z) (cws thr : nat) (mdec : nat -> nat -> bool)
+         (ffb : bool) (w : cog) (m : nat) (c : nat),
+  cog_inst d strength cws thr mdec idx_manager_upd ffb (w, m) c <> None.
+Proof. intros. apply cog_single_instance_accepts. Qed.
+Print Assumptions C10_cognitive_single_instance_accepts.
+
+(* the code as written does not meet the statement for chunks longer than one (recorded findings):
+   force_full_budget=False -> update raises on query's own result; every instance of a chunk is judged
+   against the same manager state -> the labels granted depend on the chunking *)
+Theorem C10_cognitive_update_rejects_own_query_refuted :
+  exists (d : nat -> nat -> Z) (strength : nat -> nat -> Z) (cws thr : nat) (mdec : nat -> nat -> bool) (s : cog * nat) (cs : list nat),
+    cog_update d strength cws thr idx_manager_upd false s cs (fst (cog_query d strength cws thr mdec s cs)) = None.
+Proof. exact cog_update_rejects_own_query_refuted. Qed.
+Print Assumptions C10_cognitive_update_rejects_own_query_refuted.
+
+Theorem C10_cognitive_chunk_overspends_refuted :
+  exists (d : nat -> nat -> Z) (strength : nat -> nat -> Z) (cws thr : nat) (cs : list nat),
+    fst (cog_query d strength cws thr one_left_dec (cog0, 0) cs) = [0; 1; 2] /\
+    cog_one_by_one d strength cws thr (cog0, 0) cs = [true; false; false].
+Proof. exact cog_chunk_overspends_refuted. Qed.
+Print Assumptions C10_cognitive_chunk_overspends_refuted.
+
 Example C10_nonvacuous :
   let p := {| zp_w := 3; zp_b := (1 # 2)%Q; zp_s := (1 # 10)%Q; zp_v := (1 # 10)%Q; zp_K := 2; zp_draws := [] |} in
   let s := {| u_t := 0%Q; theta := 1%Q; cur := 0 |} in
